@@ -123,6 +123,14 @@ def gen_case(rng, max_clients=6, max_ops=6):
       s, e = bounds
       if s is not None and e is not None and s > e and rng.random() < 0.7:
         s, e = e, s            # mostly proper ranges; 30% of the inverted ones stay inverted
+      vis = sorted(_visible(ids, ops))
+      if vis and rng.random() < 0.65 and not any((s is None or s <= i) and (e is None or i < e) for i in vis):
+        # keep the view inhabited most of the time: a range around one visible id, with tight bounds
+        t = rng.choice(vis)
+        lo = [c for c in universe + [t[:-1], b''] if c <= t]
+        hi = [c for c in universe + [t + b'\x00', t + b'\xff', b'\xff\xff\xff'] if c > t]
+        s = None if rng.random() < 0.3 else rng.choice(lo)
+        e = None if rng.random() < 0.3 else rng.choice(hi)
       ops.append(['slice', None if s is None else hx(s), None if e is None else hx(e)])
     elif r < 0.62:
       vis = sorted(_visible(ids, ops))
@@ -184,7 +192,7 @@ def _fixed_cases():
 def generate(tier, rng):
   if tier != 'search':
     yield from _fixed_cases()
-  n = {'quick': 160, 'thorough': 1500, 'search': 4000}[tier]
+  n = {'quick': 340, 'thorough': 2400, 'search': 4000}[tier]
   for _ in range(n):
     yield gen_case(rng)
 
